@@ -268,6 +268,42 @@ class RandomPolicy(Policy):
         return self.r.choice(sorted(runnable))
 
 
+class FocusPolicy(Policy):
+    """Targeted pre-emption: one function of the library (chosen by the seed among those that touch
+    process-wide state) is the focus of the run; inside it the baton changes hands with probability
+    p_in at every line, elsewhere with the small probability p_out.  Threads therefore tend to meet
+    *inside* the focus function, which a uniform policy only does by luck."""
+
+    name = "focus"
+
+    def __init__(self, seed: int, focus: str, p_in: float, p_out: float) -> None:
+        self.r = random.Random(seed)
+        self.focus = focus
+        self.p_in = p_in
+        self.p_out = p_out
+
+    def first(self, sched: "Scheduler", runnable: List[int]) -> int:
+        return self.r.choice(sorted(runnable))
+
+    def choose(self, sched: "Scheduler", ws: "Worker", site: str, hot: bool) -> Optional[int]:
+        p = self.p_in if site == self.focus else self.p_out
+        if self.r.random() < p:
+            others = [t for t in sched.runnable() if t != ws.tid]
+            if others:
+                return self.r.choice(others)
+        return None
+
+    def on_exit(self, sched: "Scheduler", ws: "Worker", runnable: List[int]) -> int:
+        return self.r.choice(sorted(runnable))
+
+
+FOCUS_CHOICES = sorted(HOT_QUALNAMES | {"<module>", "<lambda>", "Phase2Transpiler.__init__",
+                                        "Phase2Transpiler.expr", "Phase2Transpiler.statements",
+                                        "Phase1Transpiler.__init__", "function_matches",
+                                        "Activation.resolve_function", "Runner.new_activation",
+                                        "macro_map", "function_call", "NameContainer.resolve_name"})
+
+
 class PCTPolicy(Policy):
     """Probabilistic concurrency testing (Burckhardt et al.): random priorities, d-1 change points
     uniformly over the estimated length k; always runs the highest-priority runnable thread."""
@@ -375,6 +411,8 @@ def make_policy(spec: Dict[str, Any], tids: List[int], k_estimate: int) -> Polic
         return RandomPolicy(spec["seed"], spec["p"], spec.get("mult", 50.0))
     if kind == "roundrobin":
         return RoundRobinPolicy(spec["seed"], spec["q"])
+    if kind == "focus":
+        return FocusPolicy(spec["seed"], spec["focus"], spec["p_in"], spec["p_out"])
     if kind == "serial":
         return Policy()
     raise ValueError(kind)
@@ -488,7 +526,7 @@ class Scheduler:
             ws.abort_at = None
             raise SimAbort(ws.aborted_site)
         hot = tag == "S" or code.co_qualname in HOT_QUALNAMES
-        nxt = self.policy.choose(self, ws, "", hot)
+        nxt = self.policy.choose(self, ws, code.co_qualname, hot)
         if nxt is not None and nxt != ws.tid:
             site = site_of(code, line, tag)
             ws.last_site = site
